@@ -272,3 +272,14 @@ package lower
 //@   mode bv
 //@   tags C01
 //@   assigns l.scopeStack
+
+// ---- names of unused let bindings do not depend on map order (C12) ----------------------------
+//
+// Several unused lets can alias one expression; which name is recorded for it
+// must not follow Go's randomised map iteration order (only the keys-then-sort
+// idiom may range over the map).
+//
+//@ func (*Lowerer).registerUnusedLetBindings
+//@   mode bv
+//@   tags C12
+//@   nomaprange
